@@ -75,7 +75,9 @@ type c18Scenario struct {
 }
 
 type c18Pub struct {
-	base, delta *CRLSpec
+	base   *CRLSpec
+	delta  *CRLSpec   // the delta served by location 0 (also what the cache-tearing uses)
+	deltas []*CRLSpec // every advertised location serves its own, distinguishable copy
 }
 
 type c18World struct {
@@ -94,9 +96,9 @@ func genC18(t *Tape) *c18Scenario {
 	sc.NoCache = t.Bool(12)
 	sc.Discard = t.Bool(50)
 	sc.URLKind = t.Weighted(88, 3, 3, 2, 1, 1, 1, 1)
-	sc.FrShape = []int{FrURIs, FrAbsent, FrTwoDPs, FrEmptySeq, FrNonURI, FrNoDPName, FrURIThenNonURI, FrMalformed, FrRelativeName, FrNonURIThenURI}[t.Weighted(40, 22, 10, 5, 5, 4, 5, 4, 3, 2)]
+	sc.FrShape = []int{FrURIs, FrAbsent, FrTwoDPs, FrEmptySeq, FrNonURI, FrNoDPName, FrURIThenNonURI, FrMalformed, FrRelativeName, FrNonURIThenURI, FrNamelessThenURIs, FrIssuerOnlyThenURIs, FrBadNameTLV, FrBadURITLV, FrGarbageAfterURI}[t.Weighted(34, 19, 10, 4, 4, 4, 5, 3, 3, 2, 4, 4, 1, 1, 2)]
 	sc.NDelta = 1 + t.Weighted(55, 30, 15)
-	if sc.FrShape == FrURIThenNonURI || sc.FrShape == FrNonURIThenURI {
+	if sc.FrShape == FrURIThenNonURI || sc.FrShape == FrNonURIThenURI || sc.FrShape == FrGarbageAfterURI {
 		sc.NDelta = 1
 	}
 	for i := 0; i < sc.NDelta; i++ {
@@ -139,8 +141,8 @@ func genC18(t *Tape) *c18Scenario {
 			}
 			op.GetPlan = t.Weighted(80, 12, 8)
 			op.SetPlan = t.Weighted(80, 12, 8)
-			if t.Bool(8) {
-				op.CancelKind = 1 + t.Choose(2)
+			if t.Bool(10) {
+				op.CancelKind = 1 + t.Choose(4) // 1 before, 2 after CancelMs, 3 when the base body is closed, 4 when the first delta body is closed
 				op.CancelMs = t.Choose(4000)
 			}
 		case OpAdvance:
@@ -176,7 +178,12 @@ func (w *c18World) publish(base, delta bool, now time.Time) {
 			valid = w.sc.DeltaValidS
 			s.HasInd, s.Indicator = true, ind
 		} else if w.sc.FrShape != FrAbsent {
-			s.Freshest, _, _ = freshestValue(w.sc.FrShape, w.dURLs)
+			var us []string
+			var ok bool
+			s.Freshest, us, ok = freshestValue(w.sc.FrShape, w.dURLs)
+			if ok {
+				s.FreshURIs = len(us)
+			}
 		}
 		if valid > 0 {
 			s.NextUpdate = now.Truncate(time.Second).Add(time.Duration(valid) * time.Second)
@@ -191,8 +198,14 @@ func (w *c18World) publish(base, delta bool, now time.Time) {
 		w.cur.base = mk(false, w.num, 0)
 	}
 	if delta || w.cur.delta == nil {
-		w.num++
-		w.cur.delta = mk(true, w.num, w.cur.base.Number)
+		w.cur.deltas = nil
+		for j := range w.dURLs {
+			w.num++
+			d := mk(true, w.num, w.cur.base.Number)
+			_ = j
+			w.cur.deltas = append(w.cur.deltas, d)
+		}
+		w.cur.delta = w.cur.deltas[0]
 	}
 	w.hist = append(w.hist, w.cur)
 }
@@ -312,7 +325,7 @@ func (sc *c18Scenario) exec(obs *c18Obs) {
 			logf("clock.advance kind=%s by=%s", advNames[op.Adv], d)
 		case OpPublish:
 			w.publish(op.PubBase, op.PubDelta, time.Now())
-			logf("publish base=%v delta=%v -> base#%d delta#%d", op.PubBase, op.PubDelta, w.cur.base.Number, w.cur.delta.Number)
+			logf("publish base=%v delta=%v -> base#%d delta#%d..", op.PubBase, op.PubDelta, w.cur.base.Number, w.cur.delta.Number)
 		case OpRestart:
 			fetcher = newFetcher()
 			logf("restart (new HTTPFetcher, same cache)")
@@ -347,8 +360,9 @@ func (sc *c18Scenario) exec(obs *c18Obs) {
 			for j, du := range w.dURLs {
 				fo.XDelta = append(fo.XDelta, nt.Plan(0, &Exchange{URL: du, Kind: "delta", SrcIdx: j, Latency: op.DeltaLat[j], Fault: op.DeltaFault[j], ReadCap: crlReadCap,
 					Serve: func(x *Exchange, req *http.Request, body []byte, now time.Time) ([]byte, string) {
-						x.Rec.Served = &CRLServed{Spec: pub.delta}
-						return pub.delta.DER, "application/pkix-crl"
+						d := pub.deltas[x.SrcIdx]
+						x.Rec.Served = &CRLServed{Spec: d}
+						return d.DER, "application/pkix-crl"
 					}}))
 			}
 			e := cache.ent(w.baseURL)
@@ -361,6 +375,18 @@ func (sc *c18Scenario) exec(obs *c18Obs) {
 				cancel()
 			case 2:
 				time.AfterFunc(time.Duration(op.CancelMs)*time.Millisecond+500*time.Microsecond, cancel)
+			case 3:
+				fo.XBase.CancelOnClose = true
+			case 4:
+				if len(fo.XDelta) > 0 {
+					fo.XDelta[0].CancelOnClose = true
+				}
+			}
+			nt.OnClose = func(x *Exchange) {
+				if x.CancelOnClose {
+					x.Rec.CancelledHere = true
+					cancel()
+				}
 			}
 			schemes = nil
 			fo.TStart = time.Now()
